@@ -607,11 +607,24 @@ def execute_runs_g(chk, n):
     """generated histories x handler faults through the real `_execute`"""
     rng = chk.rng
     prepared = []
+    # a run in which nothing else goes wrong, with a handler raising at each event in turn (and once not at all): the fault in
+    # event handling is then the ONLY reason for a non-zero exit code
+    clean = [{"kind": "started"},
+             {"kind": "scenario", "phase": 1, "label": 0, "status": "success", "cases": [{"op": 0, "io": "response", "checks": [None]}]},
+             {"kind": "phase", "phase": 1, "status": "success", "enabled": True},
+             {"kind": "scenario", "phase": 3, "label": 0, "status": "success", "cases": [{"op": 0, "io": "response", "checks": [None, None]}]},
+             {"kind": "scenario", "phase": 3, "label": 1, "status": "success", "cases": [{"op": 1, "io": "response", "checks": [None]}]},
+             {"kind": "phase", "phase": 3, "status": "success", "enabled": True},
+             {"kind": "finished"}]
+    n_clean = len(realise(clean))
+    plan = [(clean, None)] + [(clean, [k, False]) for k in range(n_clean)] + [(clean, [k, True]) for k in (0, n_clean - 1)]
     for _ in range(n):
-        hist = gen_history(rng, on_protocol=rng.random() < 0.8)
+        plan.append((gen_history(rng, on_protocol=rng.random() < 0.8), "random"))
+    for hist, fault in plan:
         evs = realise(hist)
-        r = rng.random()
-        fault = None if r < 0.45 else [rng.randrange(len(evs) + 2), rng.random() < 0.3]
+        if fault == "random":
+            r = rng.random()
+            fault = None if r < 0.45 else [rng.randrange(len(evs) + 2), rng.random() < 0.3]
         wire, enabled, T = abstract(evs)
         outcome, seen = run_execute(evs, fault)
         prepared.append((hist, evs, fault, wire, enabled, T, outcome, seen))
